@@ -235,6 +235,19 @@ func (u *c07Univ) pattern(kind string, msgOf, altOf func(i int) []byte) ([]c07Pa
 		for i := 0; i < u.q; i++ {
 			ps = append(ps, c07Part{2, 2, msgOf(2)})
 		}
+	case "mixrep": // q entries: replicas 2 and 3 once each, then replica 2's signature again and again
+		ps = append(ps, c07Part{2, 2, msgOf(2)}, c07Part{3, 3, msgOf(3)})
+		for len(ps) < u.q {
+			ps = append(ps, c07Part{2, 2, msgOf(2)})
+		}
+	case "ownrep": // the signature of the replica under test itself (id 1), q times
+		for i := 0; i < u.q; i++ {
+			ps = append(ps, c07Part{1, 1, msgOf(1)})
+		}
+	case "cached": // q distinct replicas starting at 2: genuine
+		for i := 2; i <= u.q+1; i++ {
+			ps = append(ps, c07Part{i, i, msgOf(i)})
+		}
 	case "wrongmsg":
 		for i := 1; i <= u.q; i++ {
 			ps = append(ps, c07Part{i, i, altOf(i)})
@@ -581,8 +594,19 @@ func (s *c07Sender) fail() error {
 }
 func (s *c07Sender) NewView(hotstuff.ID, hotstuff.SyncInfo) error { return s.fail() }
 func (s *c07Sender) Vote(hotstuff.ID, hotstuff.PartialCert) error { return s.fail() }
-func (s *c07Sender) Timeout(hotstuff.TimeoutMsg)                  {}
-func (s *c07Sender) Propose(*hotstuff.ProposeMsg)                 {}
+
+// Timeout: what the replica broadcasts is public; certificates built later from "replica 1's signature"
+// use exactly these bytes (they are the ones its signature cache knows).
+func (s *c07Sender) Timeout(m hotstuff.TimeoutMsg) {
+	u := s.w.u
+	if m.ViewSignature != nil {
+		u.sigMemo[fmt.Sprintf("%d|%s", 1, m.View.ToBytes())] = m.ViewSignature.ToBytes()
+	}
+	if m.MsgSignature != nil {
+		u.sigMemo[fmt.Sprintf("%d|%s", 1, m.ToBytes())] = m.MsgSignature.ToBytes()
+	}
+}
+func (s *c07Sender) Propose(*hotstuff.ProposeMsg) {}
 func (s *c07Sender) RequestBlock(_ context.Context, h hotstuff.Hash) (*hotstuff.Block, bool) {
 	if s.w.fetchDown {
 		return nil, false
@@ -843,6 +867,8 @@ func (s c07Stim) String() string {
 		return fmt.Sprintf("commit(%s->%s)", s.Block, s.Target)
 	case "deliver":
 		return "deliver(" + s.Block + ")"
+	case "vote":
+		return fmt.Sprintf("vote(%s from %d)", s.Block, s.From)
 	case "grow":
 		return "grow"
 	}
@@ -961,6 +987,11 @@ func (w *c07World) apply(s c07Stim) (pan any) {
 		w.hold(cs2)
 		tm.MsgSignature = msig
 		w.el.AddEvent(tm)
+	case "vote": // a single replica's vote for a block, as the leader's vote collector receives it
+		b := u.blocks[s.Block]
+		sig, cs := u.multi([]c07Part{{s.From, s.From, b.ToBytes()}})
+		w.hold(cs)
+		w.el.AddEvent(hotstuff.VoteMsg{ID: hotstuff.ID(s.From), PartialCert: hotstuff.NewPartialCert(sig, b.Hash())})
 	case "local":
 		w.el.AddEvent(hotstuff.TimeoutEvent{View: hotstuff.View(s.View)})
 	case "commit":
@@ -1027,7 +1058,7 @@ func (w *c07World) culprit() string {
 		switch {
 		case strings.Contains(k, "relabel") || strings.Contains(k, "genesis"):
 			set["stated-view-not-checked"] = true
-		case strings.Contains(k, "dup"):
+		case strings.Contains(k, "dup"), strings.Contains(k, "mixrep"), strings.Contains(k, "ownrep"):
 			set["repeated-signer-counted"] = true
 		case strings.HasSuffix(k, ".valid"), strings.HasSuffix(k, ".validAll"), strings.HasSuffix(k, ".validHi"),
 			strings.HasSuffix(k, "made-by-replica"):
@@ -1581,9 +1612,26 @@ func (r *c07Runner) random(seqs int) {
 					}
 					w.do(r.o, c07Stim{Op: "timeout", View: tv, From: from, Sig: sig, SI: si})
 				}
+				if opt.cache > 0 || r.rng.intn(4) == 0 {
+					// certificates made of the individual signatures the replica has just verified (and cached)
+					k := []string{"dup1", "mixrep", "cached", "dup"}[r.rng.intn(4)]
+					si := &c07SISpec{TC: &c07TCSpec{Kind: k, View: tv}}
+					if r.agg {
+						si.Agg = &c07AggSpec{Kind: k, View: tv}
+					}
+					w.do(r.o, c07Stim{Op: "newview", SI: si})
+				}
 				continue
 			case x < 18:
 				s = c07Stim{Op: "local", View: []uint64{cv, cv, c07Sub(cv, 1), cv + 1}[r.rng.intn(4)]}
+				if r.rng.intn(2) == 0 && cv <= 8 {
+					// single votes for the current block, then a QC made of them
+					cnt := 1 + r.rng.intn(r.u.q)
+					for k := 0; k < cnt; k++ {
+						w.do(r.o, c07Stim{Op: "vote", Block: c07Blk(cv), From: 2 + k%(r.u.n-1)})
+					}
+					s = c07Stim{Op: "newview", SI: &c07SISpec{QC: &c07QCSpec{Kind: []string{"dup1", "mixrep", "cached"}[r.rng.intn(3)], Block: c07Blk(cv)}}}
+				}
 			case x < 19:
 				tg := []string{"", "b2", "b5", "b1", "b3", "c3", "x9", "b8", ""}[r.rng.intn(9)]
 				bl := []string{"b7", "b5", "b6", "b4", "x9"}[r.rng.intn(5)]
@@ -1769,6 +1817,85 @@ func (r *c07Runner) boundary2() {
 	}
 }
 
+// boundary3: certificates assembled from individual signatures the replica has already verified one by one
+// (votes, timeout messages, its own signatures) — with the signature cache on and off.  For every certificate
+// kind: one known signature repeated q times, known genuine signatures mixed with repeats, and q distinct known
+// signatures (legitimate).  The oracle is the ground truth: q DISTINCT members must stand behind every move.
+func (r *c07Runner) boundary3() {
+	nv := func(si c07SISpec) c07Stim { return c07Stim{Op: "newview", SI: &si} }
+	gqc := &c07QCSpec{Kind: "valid", Block: "G"}
+	to := func(w uint64, from int) c07Stim {
+		return c07Stim{Op: "timeout", View: w, From: from, Sig: "ok", SI: &c07SISpec{QC: gqc}}
+	}
+	vote := func(b string, from int) c07Stim { return c07Stim{Op: "vote", Block: b, From: from} }
+	for _, opt := range []c07Opt{{cache: 64}, {cache: 16, rot: "rr"}, {}} {
+		for _, wv := range []uint64{1, 3} {
+			bl := c07Blk(wv)
+			var seqs [][]c07Stim
+			for _, k := range []string{"dup1", "mixrep", "cached", "ownrep", "dup"} {
+				tcs := func() *c07TCSpec { return &c07TCSpec{Kind: k, View: wv} }
+				ags := func() *c07AggSpec { return &c07AggSpec{Kind: k, View: wv} }
+				qcs := func() *c07QCSpec { return &c07QCSpec{Kind: k, Block: bl} }
+				// timeout certificates / aggregate QCs from known timeout signatures
+				pre := []c07Stim{to(wv, 2)}
+				if k != "dup1" {
+					pre = append(pre, to(wv, 3))
+				}
+				if k == "ownrep" || k == "dup" {
+					pre = append(pre, c07Stim{Op: "local", View: 1})
+				}
+				if k == "dup" {
+					for i := 4; i < r.u.q; i++ {
+						pre = append(pre, to(wv, i))
+					}
+				}
+				ownView := wv
+				if k == "ownrep" {
+					ownView = 1 // the replica has signed a timeout for its own view only
+				}
+				s1 := append(append([]c07Stim{}, pre...),
+					nv(c07SISpec{TC: &c07TCSpec{Kind: k, View: ownView}}), nv(c07SISpec{TC: &c07TCSpec{Kind: k, View: ownView}}),
+					nv(c07SISpec{TC: tcs(), QC: gqc}), c07Stim{Op: "adv", SI: &c07SISpec{TC: tcs(), Agg: ags()}},
+					nv(c07SISpec{Agg: ags()}), nv(c07SISpec{Agg: &c07AggSpec{Kind: k, View: ownView}}),
+					c07Stim{Op: "timeout", View: wv, From: 4, Sig: "ok", SI: &c07SISpec{QC: gqc, TC: tcs()}})
+				// quorum certificates from known votes
+				s2 := []c07Stim{vote(bl, 2)}
+				if k != "dup1" {
+					s2 = append(s2, vote(bl, 3))
+				}
+				s2 = append(s2, nv(c07SISpec{QC: qcs()}), nv(c07SISpec{QC: qcs()}),
+					nv(c07SISpec{Agg: &c07AggSpec{Kind: "valid", View: wv, High: qcs()}}),
+					c07Stim{Op: "propose", View: wv + 1, From: int(r.leaderOf(opt, wv+1)), Parent: bl, SI: &c07SISpec{QC: qcs()}},
+					c07Stim{Op: "hqc", SI: &c07SISpec{QC: qcs()}})
+				seqs = append(seqs, s1, s2)
+			}
+			// enough genuine single signatures: the replica builds the certificate itself
+			var s3 []c07Stim
+			for i := 2; i <= r.u.q+1; i++ {
+				s3 = append(s3, vote(bl, i))
+			}
+			for i := 2; i <= r.u.q+1; i++ {
+				s3 = append(s3, to(wv, i))
+			}
+			s3 = append(s3, nv(c07SISpec{TC: &c07TCSpec{Kind: "cached", View: wv}, QC: &c07QCSpec{Kind: "cached", Block: bl}}))
+			seqs = append(seqs, s3)
+			for _, seq := range seqs {
+				w := r.freshO(nil, opt)
+				for _, s := range seq {
+					w.do(r.o, s)
+				}
+			}
+		}
+	}
+}
+
+func (r *c07Runner) leaderOf(opt c07Opt, v uint64) hotstuff.ID {
+	if opt.rot == "rr" {
+		return leaderrotation.ChooseRoundRobin(hotstuff.View(v), r.u.nFull)
+	}
+	return hotstuff.ID(r.leader)
+}
+
 func c07Size(v *verifOut, search bool, q, t int) int {
 	if search {
 		return 3 * q
@@ -1808,6 +1935,7 @@ func TestVerifC07(t *testing.T) {
 					}()
 					r.boundary()
 					r.boundary2()
+					r.boundary3()
 					if leader == 2 {
 						r.exhaustive(v.Thorough() && !search)
 						r.random(c07Size(v, search, 90, 1500))
